@@ -163,7 +163,23 @@ def struct_value(tr, walker, spec, m, n, v):
     walker.fill(spec.index[(m, n)], walker.top_slot(m, n), v, sets, n)
     for expr, num in sets:
         sk_set(sk, parse_lvalue(expr), num)
-    return empty, sk_coq(sk), t
+    want = sk_coq(sk)
+    garbage_buffers(sk)
+    return empty, sk_coq(sk), want, t
+
+
+def garbage_buffers(sk):
+    """The unused tail of an octet buffer holds arbitrary bytes (the C driver
+    uses 0xA5): memcmp against a DEFAULT legitimately reads them."""
+    if isinstance(sk, dict):
+        for k, v in sk.items():
+            if k == 'buf' and isinstance(v, list):
+                sk[k] = [165 if x is None else x for x in v]
+            else:
+                garbage_buffers(v)
+    elif isinstance(sk, list):
+        for x in sk:
+            garbage_buffers(x)
 
 
 PUBLIC_ENC = re.compile(
@@ -208,18 +224,19 @@ def unit_cases(ctx, p, max_leaves=400, max_cases=4, max_fuzz=10):
         t = tr.ty(cparse.CType('struct ' + sname))
         if count_leaves(t) > max_leaves:
             continue
-        empty, full, _ = struct_value(tr, walker, p.spec, m, n, v)
+        empty, full, want, _ = struct_value(tr, walker, p.spec, m, n, v)
         prefix = sname[:-2]
         if prefix not in sk_defs:
             sk_defs[prefix] = 'Definition sk_%s : val := %s.' % (prefix, empty)
-        defs.append('Definition v_%d : val := %s.\nDefinition b_%d : list Z := %s.' % (ci, full, ci, to_coq(list(b))))
+        defs.append('Definition v_%d : val := %s.\nDefinition w_%d : val := %s.\nDefinition b_%d : list Z := %s.' % (
+            ci, full, ci, want, ci, to_coq(list(b))))
         lines.append('check_encode prog fuel "%s_encode_inner" v_%d b_%d' % (prefix, ci, ci))
         meta.append(('encode', ci, None))
         for sz in sorted(set([0, len(b) - 1, len(b) // 2])):
             if 0 <= sz < len(b):
                 lines.append('check_encode_small prog fuel "%s_encode_inner" v_%d %d' % (prefix, ci, sz))
                 meta.append(('small', ci, sz))
-        lines.append('check_decode prog fuel "%s_decode_inner" sk_%s v_%d b_%d' % (prefix, prefix, ci, ci))
+        lines.append('check_decode prog fuel "%s_decode_inner" sk_%s w_%d b_%d' % (prefix, prefix, ci, ci))
         meta.append(('decode', ci, None))
         done += 1
         by_type_done[(m, n)] = by_type_done.get((m, n), 0) + 1
@@ -262,17 +279,18 @@ def run_units(ctx, preps, n_units):
     for p in preps:
         if done >= n_units:
             break
-        if p.unit is None or not getattr(p, 'cases', None) or p.unit.result is None or 'fuzz' not in p.unit.result:
+        if p.unit is None or not getattr(p, 'cases', None) or p.unit.result is None:
             continue
         if p.unit.result.get('gcc_rc') != 0:
             continue
         # result codes of the compiled decoder per fuzz input
-        rc, out, err = p.unit.result['fuzz']
         res = {}
-        for idx, line in enumerate(l for l in out.splitlines() if l.startswith('F ')):
-            head = line.split('|')[0].split()
-            if len(head) >= 4:
-                res[idx] = int(head[3])
+        if 'fuzz' in p.unit.result:
+            rc, out, err = p.unit.result['fuzz']
+            for idx, line in enumerate(l for l in out.splitlines() if l.startswith('F ')):
+                head = line.split('|')[0].split()
+                if len(head) >= 4:
+                    res[idx] = int(head[3])
         p.fuzz_c_results = res
         try:
             body, meta = unit_cases(ctx, p) if ctx.quick else unit_cases(ctx, p, 1500, 10, 30)
